@@ -18,6 +18,8 @@ def kind(p, pid=""):
         eng = "real" if ("real" in p["name"] or p["name"] in ("tls", "redis", "redis-slow", "udp-source", "udp-multi-route", "doh-replies", "listeners", "startup", "quic", "sockets")) else "E1"
     elif "e2" in p["name"] or "E2" in p.get("run", ""):
         eng = "E2"
+    elif p.get("go") == "go1.26" and "preempt" in p["name"]:
+        eng = "E3+E4"
     elif p.get("go") == "go1.26":
         eng = "E3"
     else:
@@ -44,7 +46,7 @@ def seeds(rnd):
         if str(m.get("round", 1)) != rnd:
             continue
         by = "; ".join(m.get("caught_by", []))
-        print("| `%s` | %s | %s | %s |" % (m["name"], m["property"], m.get("needs_to_manifest", "").replace("|", "\\|"), by.replace("|", "\\|")))
+        print("| `%s` | %s | %s | %s |" % (m["name"], m["property"], (lambda t: t if len(t) <= 420 else t[:417] + "...")(" ".join(m.get("needs_to_manifest", "").split())).replace("|", "\\|"), by.replace("|", "\\|")))
 
 
 if __name__ == "__main__":
